@@ -28,6 +28,8 @@ type RuntimeOpts struct {
 	// OverrideServiceHeader: in GenMultiServiceFile some methods re-declare a service header with
 	// another type / format.
 	OverrideServiceHeader bool
+	// BytesRules puts a max_len rule (raw bytes) on singular bytes body fields.
+	BytesRules bool
 }
 
 var urlFieldNames = []string{"user_id", "org", "page", "q", "name", "ratio", "flag", "item_id", "limit", "cursor", "since", "tenant_name"}
@@ -155,6 +157,12 @@ func GenRuntimeFile(r *R, idx int, o RuntimeOpts) *ir.Request {
 				if o.Rules && bf.Kind == "string" && bf.Card == "" && r.Bool() {
 					one := uint64(1)
 					bf.Rules = &ir.Rules{MinLen: &one}
+				}
+				if o.BytesRules && bf.Kind == "bytes" && bf.Card == "" {
+					// never violated by the generated values (at most 4 raw bytes): the published contract
+					// must not turn a RAW-byte bound into a bound on the encoded text
+					four := uint64(4)
+					bf.Rules = &ir.Rules{MaxLen: &four}
 				}
 				if o.Rules && bf.Kind == "int32" && bf.Card == "" && r.Bool() {
 					z := "0"
